@@ -1,4 +1,5 @@
 import Ekit.Props.C17
+import Ekit.Props.C17R
 open Ekit.Value
 #print axioms c17_table_sound
 #print axioms c17_bitSize_eq_castWidth
@@ -16,3 +17,17 @@ open Ekit.Value
 #print axioms c17_orDefault_iff_err
 #print axioms c17_accessor_total
 #print axioms c17_refines_spec
+#print axioms c17_row_names_unique
+#print axioms c17_def_names_unique
+#print axioms c17_run_acc_eq
+#print axioms c17_run_asString_eq
+#print axioms c17_run_orDefault_eq
+#print axioms c17_names_are_spec_domain
+#print axioms c17_acc_defined
+#print axioms c17_named_total
+#print axioms c17_orDefault_total
+#print axioms c17_orDefault_exact
+#print axioms c17_asInt_rows_exist
+#print axioms c17_asInt_exact_all
+#print axioms c17_as_other_held_err
+#print axioms c17_asString_content
